@@ -12,6 +12,12 @@
 (*     window value of its position                                        *)
 (*   a size hint (lo, hi) is consistent iff lo <= remaining <= hi          *)
 (*     (hi may be absent)                                                  *)
+(*   the chunks are a sequence: however the iterator is advanced (next,    *)
+(*     nth(j), skip(j), step_by(s)) the j-th of the remaining chunks is    *)
+(*     chunk k+j, and reaching it consumes j+1 chunks (all, if fewer)      *)
+(*   the window FUNCTIONS themselves: Hann(p) in [0, 1] with the special   *)
+(*     values at p = k/24 (Hann(0) = Hann(1) = 0, Hann(1/2) = 1);          *)
+(*     Rect(p) = 1 for EVERY p, also outside [0, 1]                        *)
 (* The cosine is never computed: Hann is pinned at the phases k/24 through *)
 (* the sine table of Osc.tla (c = 1 - 2w must be cos(15 k degrees)), and   *)
 (* elsewhere by range, symmetry, end / centre values and monotonicity.     *)
@@ -21,7 +27,7 @@
 (* frames (all of them when h >= rem).  The Window iterator is an          *)
 (* oscillator phase (Osc.tla) with rate n-1 and frequency 1.               *)
 (***************************************************************************)
-EXTENDS Osc
+EXTENDS Osc, FiniteSets
 
 ---------------------------------------------------------------------------
 (* layer 1: chunk schedule *)
@@ -30,6 +36,15 @@ ChunkOffset(k, h) == k * h
 HasChunk(L, b, h, k) == k * h + b <= L
 Remaining(L, b, h, k) == Count(L, b, h) - k                 \* after k chunks have been yielded (k <= Count)
 HintConsistent(lo, hiSome, hi, remaining) == lo <= remaining /\ (hiSome => remaining <= hi)
+
+\* Iterator::nth(j) after k chunks: chunk k + j if there is one; afterwards k + j + 1 chunks are gone
+\* (every chunk when fewer remain).  skip(j).next() is nth(j); step_by(s) yields chunks k, k+s, k+2s, ...
+Min2(x, y) == IF x <= y THEN x ELSE y
+NthHas(L, b, h, k, j) == HasChunk(L, b, h, k + j)
+NthAfter(L, b, h, k, j) == Min2(k + j + 1, Count(L, b, h))
+\* step_by(s) asked for m >= 1 items: how many it yields, and the chunks consumed afterwards
+StepGot(L, b, h, k, s, m) == Cardinality({ i \in 0..(m - 1) : HasChunk(L, b, h, k + i * s) })
+StepAfter(L, b, h, k, s, m) == IF StepGot(L, b, h, k, s, m) = m THEN k + (m - 1) * s + 1 ELSE Count(L, b, h)
 
 ---------------------------------------------------------------------------
 (* layer 2: the Windower as coded: w = [off, rem] *)
@@ -40,6 +55,15 @@ WNext(w, b, h) ==
           w |-> IF h < w.rem THEN [off |-> w.off + h, rem |-> w.rem - h]
                              ELSE [off |-> w.off + w.rem, rem |-> 0]]
     ELSE [some |-> FALSE, at |-> w.off, w |-> w]
+\* nth(j) as the Iterator trait defines it: j times next() (stopping at the first None), then next();
+\* cnt = chunks consumed on the way
+RECURSIVE WNthR(_, _, _, _, _)
+WNthR(w, b, h, j, c) ==
+  LET r == WNext(w, b, h) IN
+  IF ~r.some THEN [some |-> FALSE, at |-> r.at, w |-> r.w, cnt |-> c]
+  ELSE IF j = 0 THEN [some |-> TRUE, at |-> r.at, w |-> r.w, cnt |-> c + 1]
+  ELSE WNthR(r.w, b, h, j - 1, c + 1)
+WNth(w, b, h, j) == WNthR(w, b, h, j, 0)
 \* an exact size hint on that representation
 WHint(w, b, h) == IF b <= w.rem THEN ((w.rem - b) \div h) + 1 ELSE 0
 \* size_hint as coded at the pinned commit (DESIGN section 7 #6): `bin < len`, no `+ 1`
@@ -69,4 +93,17 @@ HannTableOK ==
 \* w (a dyadic) is Hann(k/24) to 1e-12:  1 - 2w is cos(15 k deg)
 IsHann24T(w, k, T) == IsCos24T(DSub(DOne, DScale2(w, 1)), k, T)
 IsHann24(w, k) == IsHann24T(w, k, DE12)
+
+---------------------------------------------------------------------------
+(* layer 1: the window functions evaluated directly at a phase p (a dyadic).  w = the value as an       *)
+(* amplitude (floats: the number; integer formats: sample / 2^(bits-1)), lsb = one unit of the output   *)
+(* format (0 for floats).  num/den = the rational the phase was derived from (den = 0: none): when      *)
+(* 24 num/den is an integer k and p really is within `close`/24 of k/24, the special value is demanded  *)
+(* to 1/T (+ the slope pi of Hann times the distance is inside 1/T for the (close, T) pairs used).      *)
+RectFnOK(w, lsb) == DLe(w, DOne) /\ DLe(DSub(DOne, w), lsb)               \* 1 everywhere (nearest value below 1)
+HannFnOK(p, w, num, den, close, T) ==
+  /\ DLe(DZero, w) /\ DLe(w, DOne)
+  /\ (den > 0 /\ Mod(24 * num, den) = 0 =>
+        LET k == (24 * num) \div den IN
+        DLe(DAbs(DSub(DMul(DFromInt(24), p), DFromInt(k))), close) => IsHann24T(w, k, T))
 =============================================================================
